@@ -25,6 +25,7 @@ def run(rep, idx, tier):
     c = get_ctx(idx, "event:Monitor.elaborate")
     rep.analysed(c.fi.site)
     rep.count("drivers", len(c.t.drivers))
+    glue.partition_concatenations(rep, "C13.3", idx, "event:Monitor.elaborate", "bit k of pending / enable / clear belongs to the source the event map numbers k")
     if require_supported(rep, "C13.1", c):
         monitor(rep, idx, c)
     apirules.eventmap_typestate(rep, idx, "C13.5")
